@@ -197,6 +197,15 @@ struct FixedWordEngine
     result_type operator()() { return words[(i++) % words.size()]; }
 };
 
+struct OneWordEngine
+{
+    using result_type = unsigned int;
+    static constexpr result_type min() { return 0u; }
+    static constexpr result_type max() { return 0xffffffffu; }
+    u32 word;
+    result_type operator()() { return word; }
+};
+
 }  // namespace
 
 int main(int argc, char** argv)
@@ -594,10 +603,45 @@ int main(int argc, char** argv)
                          {{"upper", a}, {"lower", b}, {"value", v}});
                 else
                     rep.held("canonical/extreme-double");
-                // float: documented [0,1); record but judge only the double used by this
-                // build (real_type == double)
-                rep.observe(f < 1.0f ? "canonical_float_lt1" : "canonical_float_eq1");
+                // float specialisation (used when real_type == float; public template)
+                if (!(f >= 0.0f && f < 1.0f))
+                    fail("canonical/float", "canonical float outside [0,1)",
+                         {{"sample", a}, {"value", double(f)}});
+                else
+                    rep.held("canonical/extreme-float");
             }
+        {
+            // every 32-bit sample in the top 2^20 (conversion to float rounds up there), the
+            // bottom 2^12, and a random selection; thorough: all 2^32 samples
+            auto check_float = [&](u32 w) {
+                OneWordEngine ef{w};
+                float f = detail::GenerateCanonical32<float>()(ef);
+                if (!(f >= 0.0f && f < 1.0f))
+                {
+                    fail("canonical/float", "canonical float outside [0,1)", {{"sample", w}, {"value", double(f)}});
+                    return false;
+                }
+                return true;
+            };
+            bool okf = true;
+            u64 nf = 0;
+            if (args.thorough() && args.get("shard", "0") == "0")
+            {
+                for (u64 w = 0; w <= 0xffffffffull && okf; ++w, ++nf)
+                    okf = check_float(u32(w));
+            }
+            else
+            {
+                for (u64 w = 0xfff00000ull; w <= 0xffffffffull && okf; ++w, ++nf)
+                    okf = check_float(u32(w));
+                for (u64 w = 0; w < 4096 && okf; ++w, ++nf)
+                    okf = check_float(u32(w));
+                for (u64 i = 0; i < 1000000 && okf; ++i, ++nf)
+                    okf = check_float(rng.u32());
+            }
+            if (okf)
+                rep.held("canonical/float-samples", nf);
+        }
         u64 n = args.budget(200000, 50000000);
         put_x(st, reference_seed(unsigned(rng.u32())).x, rng.u32());
         XorwowRngEngine e(pref, store.ref(), TrackSlotId{0});
